@@ -210,15 +210,18 @@ class PiecewiseConstantBirthDeath(Distribution):
             )
         )
 
-    def p0(self, A, B, t, t_i):
+    def p0(self, A, B, t, t_i, lambda_=None, mu=None, psi=None):
+        lambda_ = self.lambda_ if lambda_ is None else lambda_
+        mu = self.mu if mu is None else mu
+        psi = self.psi if psi is None else psi
         term = torch.exp(A * (t - t_i)) * (1.0 + B)
         one_minus_Bi = 1.0 - B
         return (
-            self.lambda_
-            + self.mu
-            + self.psi
+            lambda_
+            + mu
+            + psi
             - A * (term - one_minus_Bi) / (term + one_minus_Bi)
-        ) / (2.0 * self.lambda_)
+        ) / (2.0 * lambda_)
 
     def log_p(self, t, t_i, rho):
         """Probability density of lineage alive between time t and t_i has no
@@ -352,6 +355,9 @@ class PiecewiseConstantBirthDeath(Distribution):
                     B.gather(-1, indices_y),
                     torch.gather(times[..., 1:], -1, indices_y),
                     y,
+                    self.lambda_.gather(-1, indices_y),
+                    self.mu.gather(-1, indices_y),
+                    self.psi.gather(-1, indices_y),
                 )
                 log_p += (
                     (
@@ -404,17 +410,6 @@ class PiecewiseConstantBirthDeath(Distribution):
                     + torch.log(1.0 - rho[..., :-1])
                 )
             ).sum(-1)
-
-        if self.removal_probability is not None and m > 1:
-            r = self.removal_probability.gather(-1, indices_y)[..., 1:]
-            p0 = self.p0(A[..., 1:], B[..., 1:], times[..., 1:-1], times[..., 2:])
-            log_p += (
-                r[..., 0]
-                * self.log_q(A[..., 1:], B[..., 1:], times[..., 1:-1], times[..., 2:])
-                + torch.log(1.0 - r[..., 1:])
-                + (N[..., :-1] - r[..., 0])
-                * torch.log(r[..., 1:] + (1 - r[..., 1:]) * p0)
-            )
 
         mask = (N > 0).logical_and(rho > 0.0)
         log_p += (N * torch.where(mask, rho, torch.ones_like(rho)).log()).sum(-1)
